@@ -87,11 +87,19 @@ def relayout_input(job):
     bview = view(base)
     positions = [(a, b, tk) for a, b, tk in g]
     choose = positions if tier == "thorough" else rng.sample(positions, min(len(positions), 10 if escalated else 6))
+    if tier != "thorough":
+        # gaps inside directive lines are few and have their own layouts: always all of them
+        choose = choose + [p for p in positions if p not in choose and (directive_line(t, max(0, p[1] - 1)) or directive_line(t, p[1]))][:12]
     for a, b, tk in choose:
         on_directive = directive_line(t, max(0, b - 1)) or directive_line(t, b)
         if on_directive:
             # the end of a directive line is significant: only blanks / block comments inside the line
             lays = [" ", "\t", " /* c */ "]
+            le0 = t.find("\n", b)
+            if tk.type not in ("PRAGMA_DIRECTIVE", "INCLUDE_DIRECTIVE") and t[b: le0 if le0 >= 0 else len(t)].strip() != "":
+                # INSIDE the directive line (a token of the directive follows on the same line): a line splice and a block
+                # comment that spans lines are layout like any other
+                lays += [" \\\n ", "\\\n", " /* a\n b */ ", " \\\n  \\\n\t"]
         else:
             lays = gen_text.LAYOUTS if tier == "thorough" else rng.sample(gen_text.LAYOUTS, 6 if escalated else 4)
         for lay in lays:
@@ -135,6 +143,9 @@ def relayout_input(job):
 def run(ctx):
     rng = ctx.rng("layout")
     inputs = [t for t in pcommon.corpus() if not has_doc(t) and "\\\n" not in t]
+    inputs += ["#pragma omp parallel for schedule(static, 4)\nvoid work(int n);\n",
+               "int a;\n#pragma pack(push, 1)\nstruct P { char c; };\n#pragma pack(pop)\nint z;\n",
+               "namespace n {\n#pragma warning(disable : 4996)\nint q;\n}\n", "#pragma GCC diagnostic ignored \"-Wall\"\nint d;\n"]
     for _ in range(ctx.budget(60, 400)):
         inputs.append(gen_prog.gen_program(rng, budget=5)[0])
         inputs.append(gen_prog.gen_class_program(rng)[0])
